@@ -2,6 +2,7 @@
 from symx.api import Instance
 
 META = {
+    "level": "fault_enumeration",
     "bounds": {
         "session": "one chained script on a real pseudo-terminal: alarm -> keys 'a','b' (one read) -> alarm -> pipe write -> SIGWINCH resize -> "
                    "mouse press + key 'c' (one read) -> alarm -> key 'q' (the unhandled handler raises ExitMainLoop); each stage is triggered from a "
